@@ -2,9 +2,9 @@
     Statements only; proofs in theories/ClirProofs.v over the IR that src/cranelift.rs builds in insert_bounds_check
     and in the prelude, regenerated on every run (coq/gen/Clir.v).  The semantics of the IR instructions is the model
     theories/ClirSem.v; that Cranelift's code generator implements it is trusted and exercised by the correspondence. *)
-From Coq Require Import ZArith String.
-From RbpfV Require Import MachInt ClirSem ClirProofs.
-From RbpfV.gen Require Import Clir.
+From Coq Require Import ZArith String List.
+From RbpfV Require Import MachInt Ebpf ClirSem ClirProofs ClMemProofs.
+From RbpfV.gen Require Import Clir ClMem.
 Open Scope Z_scope.
 
 (** For every base value, 16-bit offset, access width 1..8 and values of the region variables: execution continues past
@@ -30,6 +30,14 @@ Theorem C11_check_precedes_access :
   gen_reg_atomic_add_access = ("ty", "base", "offset")%string.
 Proof. exact accesses_are_the_checked_ones. Qed.
 
+(** which accesses the instructions make: for each of the 22 load / store / atomic-add opcodes, width and effective address
+    (the three values handed to the check) are the ISA's -- absolute / indirect loads address packet start + immediate
+    [+ source register] and pass offset 0 *)
+Theorem C11_checked_access_is_the_isa_access : forall i rd rs mb,
+  0 <= rd < 2 ^ 64 -> 0 <= rs < 2 ^ 64 -> 0 <= mb < 2 ^ 64 -> - 2 ^ 15 <= off i < 2 ^ 15 -> - 2 ^ 31 <= imm i < 2 ^ 31 ->
+  Forall (fun o => access_matches o i rd rs mb) cl_mem_ops.
+Proof. exact cl_mem_arms. Qed.
+
 (** non-vacuity: with a 32-byte packet at 0x1000, no metadata buffer and the stack at 0x8000, an 8-byte access at the last
     8 bytes passes, one byte further traps, and so does an access wrapping the address space *)
 Example C11_example :
@@ -42,3 +50,4 @@ Proof. vm_compute. repeat split. Qed.
 Print Assumptions C11_bounds_check.
 Print Assumptions C11_regions.
 Print Assumptions C11_check_precedes_access.
+Print Assumptions C11_checked_access_is_the_isa_access.
